@@ -24,6 +24,11 @@ def main():
     seed = int(os.environ.get("VERIF_SEED", "20260923"))
     prop = a.prop.upper()
     tier = "thorough" if a.tier.startswith("t") else "quick"
+    # checks share coq/gen, the Makefile targets and /verif/work: two of them at once would race
+    import fcntl
+    os.makedirs(os.path.join(common.VERIF, "work"), exist_ok=True)
+    lock = open(os.path.join(common.VERIF, "work", ".check.lock"), "w")
+    fcntl.flock(lock, fcntl.LOCK_EX)
     mod = importlib.import_module(f"p_{prop.lower()}")
     os.environ["VERIF_TIER_EFFECTIVE"] = tier          # translators with tier-dependent bounds read this
     v = common.Verdict(prop, tier, seed)
